@@ -13,9 +13,16 @@ from .engine import Unsupported, NeedSplit, Ref, Obj, ObjT, PyConst, RaiseSignal
 
 
 def _args(engine, st, node):
-    if any(isinstance(a, ast.Starred) for a in node.args):
-        raise Unsupported("star-args call")
-    return [engine.eval(st, a) for a in node.args]
+    out = []
+    for a in node.args:
+        if isinstance(a, ast.Starred):
+            v = engine.deref(st, engine.eval(st, a.value))
+            if isinstance(v, V) and isinstance(v.t, Ty.Tuple):
+                out.extend(Ty.split(v.t, v.c))
+                continue
+            raise Unsupported("star-args call on a non-tuple")
+        out.append(engine.eval(st, a))
+    return out
 
 
 def _kwargs(engine, st, node):
@@ -67,7 +74,8 @@ def spec_call(engine, st, name, node):
         return Ty.mk_bool(a == b)
     if name == "old":
         if st.old is None:
-            raise Unsupported("old() outside a postcondition")
+            # in a precondition the pre-state is the current state
+            return engine.eval(st, node.args[0])
         s_old = st.old
         saved = (st.vars, st.heap)
         # evaluate in the pre-state (parameters keep their names)
@@ -811,6 +819,10 @@ def eval_call(engine, st, node):
             ext = engine.external(st, getattr(local.val, "__name__", name), _args(engine, st, node), node)
             if ext is not None:
                 return ext
+        if name in engine.contract.externals and local is None:
+            ext = engine.external(st, name, _args(engine, st, node), node, _kwargs(engine, st, node))
+            if ext is not None:
+                return ext
         callee = engine.resolve_function_contract(name)
         if callee is not None and local is None:
             args = _args(engine, st, node)
@@ -846,6 +858,10 @@ def eval_call(engine, st, node):
             if ext is not None:
                 return ext
             raise Unsupported(f"call to {qual}")
+        if f"*.{meth}" in engine.contract.externals:
+            ext = engine.external(st, f"*.{meth}", [base] + _args(engine, st, node), node, _kwargs(engine, st, node))
+            if ext is not None:
+                return ext
         return method_call(engine, st, base, bv, meth, node)
     raise Unsupported("call of computed function")
 
@@ -872,14 +888,16 @@ def inline_local(engine, st, desc, node):
 
 def exec_with(engine, st, stmt):
     """`with open(...) as f:` is only modelled through external effects."""
+    ctxs = []
     for it in stmt.items:
         v = engine.eval(st, it.context_expr)
+        ctxs.append(v)
         if it.optional_vars is not None:
             engine.assign_target(st, it.optional_vars, v, stmt)
     outs = engine.exec_block(st, stmt.body)
     res = []
     for s, oc in outs:
-        for it in stmt.items:
-            engine.external(s, "__exit__", [], stmt)
+        for v in reversed(ctxs):
+            engine.external(s, "__exit__", [v], stmt)
         res.append((s, oc))
     return res
